@@ -343,7 +343,7 @@ ustr encode_text_field(const ustr &T, Tape &tp, const PrintOpts &o, PrintInfo &i
                 if (cut < rem.size() && rem[cut] >= 0xDC00 && rem[cut] <= 0xDFFF && cut > 0 && rem[cut - 1] >= 0xD800 && rem[cut - 1] <= 0xDBFF) cut++;
                 // without a prefix, the continuation line must not start with ';': cut after the run of semicolons
                 while (mode == FOLD && cut < rem.size() && rem[cut] == u';') cut++;
-                if (cplen(rem.substr(0, cut)) > roomcp + 1) { ok = false; return ustr(); }   // (a >2000 run of ';' -- not foldable without prefix)
+                if (cplen(rem.substr(0, cut)) > roomcp) { ok = false; return ustr(); }   // (a >2000 run of ';' -- not foldable without prefix)
                 body += rem.substr(0, cut); body += u'\\'; body += trail[tp.next(5)]; body += u'\n'; body += P;
                 rem = rem.substr(cut);
                 info.labels.insert("folded-line");
